@@ -16,7 +16,7 @@ key wire form (argument and result):
   c08.newPublic <GoPub wire>     → outcome(key)             jwk.NewPublicKey
   c08.pem <bytes>                → outcome([key, rest])     jwk.DecodePEM
   c08.spec <material> <params> <extras> → JSON object whose encoded values are "hex:<octets>"
-        (Spec.IANA.specEncode with enc = hex; material = ["ec",crv,x,y,d|_] | ["rsa",n,e,_|[d,p,q,_|[dp,dq,qi]]]
+        (Spec.IANA.specEncode with enc = hex; material = ["ec",crv,x,y,d|_] | ["rsa",n,e,_|[d,p,q,_|[dp,dq,qi],[[r,d,t]…]]]
          | ["okp",crv,x,d|_] | ["oct",k]; params = {kid,use,key_ops,alg,x5u,x5c,x5t,"x5t#S256"})
   c08.required <material>        → [[name, "hex:<octets>"|identifier]…]   Spec.IANA.requiredMembers
 -/
@@ -72,9 +72,10 @@ def materialOfWire (w : Wire) : KeyMaterial :=
   else if t == "rsa" then
     .rsa (arg a 1).asNat (arg a 2).asNat
       (match arg a 3 with
-       | .arr [.int d, .int p, .int q, crt] =>
+       | .arr [.int d, .int p, .int q, crt, oth] =>
          some ⟨d.toNat, p.toNat, q.toNat,
-           match crt with | .arr [.int dp, .int dq, .int qi] => some (dp.toNat, dq.toNat, qi.toNat) | _ => none⟩
+           (match crt with | .arr [.int dp, .int dq, .int qi] => some (dp.toNat, dq.toNat, qi.toNat) | _ => none),
+           oth.asArr.map fun w => ((arg w.asArr 0).asNat, (arg w.asArr 1).asNat, (arg w.asArr 2).asNat)⟩
        | _ => none)
   else if t == "okp" then
     .okp (okpCurveOf (arg a 1).asStr) (arg a 2).asBytes (arg a 3).asBytes?
